@@ -34,26 +34,35 @@ type seenKey struct {
 }
 
 type model struct {
-	role     string
-	last     map[uint64]*assign // epoch (attester, proposer) / period (sync) -> most recent successful fetch
-	seen     map[seenKey]bool
-	classes  map[string]bool
-	voidKind map[uint64]string
+	role    string
+	last    map[uint64]*assign // epoch (attester, proposer) / period (sync) -> most recent successful fetch
+	seen    map[seenKey]bool
+	classes map[string]bool
 
 	// middle reading ("healthy re-fetch liveness"), per epoch / period since the last voiding notice
 	failsSince map[uint64]int  // failed fetches for this epoch / period
 	anyFail    map[uint64]bool // some fetch (for whatever epoch) failed: the handlers fetch the current epoch before the next one, so a failing fetch can block another
-	voidDrift  map[uint64]bool // the notice arrived while the clock was behind the last tick's slot
-	voidLate   map[uint64]bool // the notice was stamped with a slot before the clock's
-	skipSince  map[uint64]bool // a slot went by without a tick since the notice
+	// facts about the history of an epoch / period since its last successful fetch; they identify the
+	// mechanism of a miss (known-finding families), see classify
+	lastVoid   map[uint64]*voidInfo // the most recent voiding notice
+	driftSince map[uint64]bool      // some voiding notice arrived while the clock was behind the last tick's slot
+	skipTrig   map[uint64]bool      // the tick that triggers the pre-fetch of this epoch / period was skipped
+	knownSeen  map[string]bool
 	lastTick   uint64
-	grace      map[uint64]bool              // voided by an indices-change notice and no tick processed since
-	current    func(u uint64) map[dkey]bool // the node's current assignment for the operator's validators
+	grace      map[uint64]bool                       // voided by an indices-change notice and no tick processed since
+	current    func(u uint64, ver int) map[dkey]bool // the node's assignment (version ver) for the operator's validators
+	mver       map[uint64]int                        // assignment version per epoch as of the notices delivered so far
 
 	eventInDutyUnit bool
 	refetchChanged  bool
 	dispatches      int
 	obligations     int
+}
+
+type voidInfo struct {
+	kind      string
+	stampUnit uint64 // epoch / period of the slot the notice is stamped with
+	tickSince bool   // a tick of an earlier epoch / period than the voided one was processed after the notice
 }
 
 type tickCtx struct {
@@ -162,7 +171,6 @@ func (m *model) hasOwnDuties(unit uint64) bool {
 // e on the current dependent root; sync committees on neither) and (b) what the handler resets.
 func (m *model) notice(kind string, stamp, clock uint64) {
 	drifted := clock < m.lastTick
-	late := stamp < clock
 	clock = stamp
 	e := clock / slotsPerEpoch
 	p := e / epochsPerPeriod
@@ -197,14 +205,8 @@ func (m *model) notice(kind string, stamp, clock uint64) {
 		m.void(u)
 		m.failsSince[u] = 0
 		m.anyFail[u] = false
-		// witness flags accumulate until the next successful fetch for u
-		m.voidDrift[u] = m.voidDrift[u] || drifted
-		m.voidLate[u] = m.voidLate[u] || late
-		if k, ok := m.voidKind[u]; ok && k != kind {
-			m.voidKind[u] = "several-notices"
-		} else {
-			m.voidKind[u] = kind
-		}
+		m.lastVoid[u] = &voidInfo{kind: kind, stampUnit: m.unitOf(stamp)}
+		m.driftSince[u] = m.driftSince[u] || drifted
 		if kind == "indices" {
 			m.grace[u] = true
 		}
@@ -223,11 +225,16 @@ func (m *model) consume(step string, entries []logEntry, tc *tickCtx) *prog.Fail
 	// obligations are fixed at the start of the tick: "fetched successfully before that tick"
 	var oblig []dkey
 	voidedStart, judged := false, false
-	var vKind string
-	var vDrift, vLate, vSkip bool
+	var vi voidInfo
+	var vDrift, vSkip bool
 	if tc != nil {
 		judged = true
 		m.lastTick = tc.slot
+		for u, v := range m.lastVoid {
+			if m.unitOf(tc.slot) < u {
+				v.tickSince = true
+			}
+		}
 		switch {
 		case !m.inWindow(tc.clock, tc.slot):
 			m.classes["tick-outside-window"] = true
@@ -239,7 +246,10 @@ func (m *model) consume(step string, entries []logEntry, tc *tickCtx) *prog.Fail
 		if a := m.last[m.unitOf(tc.slot)]; a != nil && judged {
 			voidedStart = !a.valid
 			u0 := m.unitOf(tc.slot)
-			vKind, vDrift, vLate, vSkip = m.voidKind[u0], m.voidDrift[u0], m.voidLate[u0], m.skipSince[u0]
+			if v := m.lastVoid[u0]; v != nil {
+				vi = *v
+			}
+			vDrift, vSkip = m.driftSince[u0], m.skipTrig[u0]
 			for _, k := range sortedKeys(a.duties) {
 				if a.valid && a.duties[k] && (m.role == "sync" || k.slot == tc.slot) {
 					oblig = append(oblig, k)
@@ -252,7 +262,7 @@ func (m *model) consume(step string, entries []logEntry, tc *tickCtx) *prog.Fail
 		case en.fetch && !en.ok:
 			m.classes["fetch-failure"] = true
 			m.failsSince[en.unit]++
-			for u := range m.voidKind {
+			for u := range m.lastVoid {
 				m.anyFail[u] = true
 			}
 		case en.fetch:
@@ -265,10 +275,9 @@ func (m *model) consume(step string, entries []logEntry, tc *tickCtx) *prog.Fail
 				}
 			}
 			m.last[en.unit] = &assign{duties: en.duties, valid: true}
-			delete(m.voidDrift, en.unit)
-			delete(m.voidLate, en.unit)
-			delete(m.skipSince, en.unit)
-			delete(m.voidKind, en.unit)
+			delete(m.lastVoid, en.unit)
+			delete(m.driftSince, en.unit)
+			delete(m.skipTrig, en.unit)
 			if tc != nil {
 				tc.fetched[en.unit] = append(tc.fetched[en.unit], en.duties)
 			}
@@ -362,7 +371,18 @@ func (m *model) consume(step string, entries []logEntry, tc *tickCtx) *prog.Fail
 		case m.anyFail[u]:
 			m.classes["voided:excused-by-failed-fetch-for-another-epoch"] = true
 		default:
-			for _, k := range sortedKeys(m.current(u)) {
+			// the node's current assignment as far as notices have been delivered (a reorg whose notice is
+			// still under way cannot oblige the handler), or what the handler re-fetched during this tick
+			required := m.current(u, m.mver[u])
+			if f := tc.fetched[u]; len(f) > 0 {
+				required = map[dkey]bool{}
+				for k, own := range f[len(f)-1] {
+					if own {
+						required[k] = true
+					}
+				}
+			}
+			for _, k := range sortedKeys(required) {
 				if m.role != "sync" && k.slot != tc.slot {
 					continue
 				}
@@ -371,20 +391,34 @@ func (m *model) consume(step string, entries []logEntry, tc *tickCtx) *prog.Fail
 					m.classes["voided:refetched-and-dispatched"] = true
 					continue
 				}
+				// Identify the mechanism (facts since this epoch / period was last fetched):
+				//  at-rollover: the notice that voided it last was stamped in an earlier epoch / period (it
+				//    voided the "next" one) and no tick of an earlier epoch / period was processed after it,
+				//    i.e. the handler had no tick left to re-fetch it as "next";
+				//  skipped-tick: the tick that triggers its pre-fetch was skipped;
+				//  clock-behind-ticker: a notice that voided it was evaluated with the clock behind the ticker.
 				sig := "missed-after-notice"
-				switch { // witness circumstances since the assignment was last fetched
+				switch {
+				case vi.stampUnit < u && !vi.tickSince:
+					sig = "missed-after-notice-at-rollover"
 				case vSkip:
 					sig = "missed-after-notice-and-skipped-tick"
 				case vDrift:
 					sig = "missed-after-notice-with-clock-behind-ticker"
-				case vLate:
-					sig = "missed-after-late-notice"
+				}
+				if full := "C16:" + m.role + "-" + sig; prog.IsKnown(full) {
+					if !m.knownSeen[full] { // counted once per program; the case goes on behind it
+						m.knownSeen[full] = true
+						prog.KnownHit(testName, full)
+					}
+					m.classes["known:"+sig] = true
+					break
 				}
 				state := "still holds the voided one"
 				if a != nil && a.valid {
 					state = "re-fetched it during this tick"
 				}
-				return m.failf(sig, "%s: %v duty of validator %d at slot %d of the beacon node's current assignment for epoch/period %d was not dispatched: an assignment for it had been fetched successfully before, a %s notice voided it, no fetch for it has failed since, and the handler %s", step, m.primary(), k.val, tc.slot, u, vKind, state)
+				return m.failf(sig, "%s: %v duty of validator %d at slot %d of the beacon node's current assignment for epoch/period %d was not dispatched: an assignment for it had been fetched successfully before, a %s notice (stamped in epoch/period %d) voided it last, no fetch has failed since, and the handler %s", step, m.primary(), k.val, tc.slot, u, vi.kind, vi.stampUnit, state)
 			}
 		}
 	}
@@ -392,6 +426,24 @@ func (m *model) consume(step string, entries []logEntry, tc *tickCtx) *prog.Fail
 		delete(m.grace, g)
 	}
 	return nil
+}
+
+// skipped: slot s went by without a tick. The handlers schedule the pre-fetch of the next epoch / period
+// at one particular tick (attester: slot SlotsPerEpoch/2-2 of every epoch; sync committee: that slot of the
+// first preparation epoch); if it is that one, remember which epoch / period lost its trigger.
+func (m *model) skipped(s uint64) {
+	if s%slotsPerEpoch != slotsPerEpoch/2-2 {
+		return
+	}
+	e := s / slotsPerEpoch
+	switch m.role {
+	case "attester":
+		m.skipTrig[e+1] = true
+	case "sync":
+		if e%epochsPerPeriod == epochsPerPeriod-2 {
+			m.skipTrig[e/epochsPerPeriod+1] = true
+		}
+	}
 }
 
 func hasKey(s map[dkey]bool, k dkey) bool { _, ok := s[k]; return ok }
@@ -466,8 +518,8 @@ func run(p Prog) *prog.Result {
 	w.clock.Store(clock)
 
 	m := &model{role: p.Role, last: map[uint64]*assign{}, seen: map[seenKey]bool{}, classes: map[string]bool{"role=" + p.Role: true},
-		failsSince: map[uint64]int{}, anyFail: map[uint64]bool{}, voidDrift: map[uint64]bool{}, voidLate: map[uint64]bool{}, skipSince: map[uint64]bool{}, grace: map[uint64]bool{}, voidKind: map[uint64]string{}}
-	m.current = w.currentOwn
+		failsSince: map[uint64]int{}, anyFail: map[uint64]bool{}, lastVoid: map[uint64]*voidInfo{}, driftSince: map[uint64]bool{}, skipTrig: map[uint64]bool{}, knownSeen: map[string]bool{}, mver: map[uint64]int{}, grace: map[uint64]bool{}}
+	m.current = w.ownDuties
 	h := newHandler(p.Role)
 	tk := &fakeTicker{c: make(chan time.Time)}
 	reorgCh := make(chan duties.ReorgEvent)
@@ -597,9 +649,7 @@ func run(p Prog) *prog.Result {
 			}
 			lastSkip = true
 			m.classes["skipped-tick"] = true
-			for u := range m.voidKind {
-				m.skipSince[u] = true
-			}
+			m.skipped(cur)
 			clock = cur
 			w.clock.Store(clock)
 			cur++
@@ -611,8 +661,9 @@ func run(p Prog) *prog.Result {
 				m.classes["late-reorg-notice"] = true
 			}
 			name += fmt.Sprintf(" stamped slot %d, clock %d)", at, clock)
-			if !applied[i] {
-				for _, u := range versionUnits(p.Role, st.Kind, at) {
+			for _, u := range versionUnits(p.Role, st.Kind, at) {
+				m.mver[u] = st.V % 3
+				if !applied[i] {
 					w.ver[u] = st.V % 3
 				}
 			}
